@@ -91,8 +91,8 @@ def gen_C01(tier, rnd):
         lines.append('P ' + hx(' '.join(spell_tree(rand_tree(rnd, rnd.randint(1, 8)), rnd, 0))))
     # long sentences: many operands at one level, many closed groups, deep nesting (the grammar has no length bound)
     nlong = 0
-    for k in [2, 10, 63, 64, 65, 66, 100, 129, 200, 257, 500]:
-        for item in ['! -true', '-false', '! ! -name x', '( -true )', '( ! -true )', '( -true -o -false )']:
+    for k in [2, 10, 63, 64, 65, 66, 100, 129, 200, 257, 500, 1000, 1001, 2049, 4097]:
+        for item in (['-true', '-name x'] if k >= 1000 else ['! -true', '-false', '! ! -name x', '( -true )', '( ! -true )', '( -true -o -false )']):
             for sep in [' ', ' -a ', ' -and ', ' -o ', ' -or ', ' , ']:
                 lines.append('P ' + hx(sep.join([item] * k))); nlong += 1
         if k <= 300:
@@ -148,7 +148,7 @@ def generate(pid, tier, seed):
 
 # ------------------------------------------------------------------ random trees (canonical S-expression syntax)
 
-STR_POOL = ['a', 'foo', 'x*', 'a b', 'A', 'é', 'out', 'out2', 'f?', '[ab]', 'p"q', 'b\\s', 't~d', "q'r", '']
+STR_POOL = ['a', 'foo', 'x*', 'a b', 'A', 'é', 'out', 'out2', 'f?', '[ab]', 'p"q', 'b\\s', 't~d', "q'r", '', 'a(b', ':)', '(', ';#', '{}', 'a]b[c', '日本']
 FIELDS0 = ['Percent', 'Access', 'DiskSizeBlocks', 'Change', 'Depth', 'DeviceNumber', 'Basename', 'FsType', 'Group',
            'GroupId', 'Parents', 'StartingPoint', 'InodeDecimal', 'DiskSizeKilos', 'SymbolicTarget', 'PermissionsOctal',
            'PermissionsSymbolic', 'Hardlinks', 'Name', 'NameWithoutStartingPoint', 'DiskSizeBytes', 'Sparseness', 'Modify',
@@ -193,7 +193,7 @@ def rand_format(rnd, supported_only=False, allow_clear=True):
             if s == 'Clear' and (supported_only or not allow_clear):
                 s = 'Newline'
             if s == 'Ascii':
-                els.append('(Spc (Ascii %d))' % rnd.choice([0, 10, 34, 65, 92, 126, 127, 255, 511]))
+                els.append('(Spc (Ascii %d))' % rnd.choice([0, 10, 34, 65, 92, 126, 127, 255, 266, 511, rnd.randint(0, 511)]))
             else:
                 els.append('(Spc %s)' % s)
     if els and rnd.random() < 0.5:
@@ -282,6 +282,10 @@ def gen_C19(tier, rnd):
             lines.append('U T %s %d' % (v, k)); units += 1
     for v in FILETYPES:
         lines.append('U F %s' % v); units += 1
+    # every octal escape value as the last (or only) element of a stdout format: framing hinges on 'is the newline escape'
+    for v in range(0, 512):
+        lines.append('T 0 - %s (A (PrintFormatted (# (Fld Name) (Spc (Ascii %d)))))' % (hx('/dev/x'), v))
+        lines.append('T 0 - %s (Or (A Print) (A (PrintFormatted (# (Spc (Ascii %d))))))' % (hx('/dev/x'), v))
     return lines, {'rule': '%d random trees built from the public constructors (depth<=12, including Precedence/Global/Positional nodes and every test/action/format element) + exhaustive unit-table queries with boundary counts; non-trivial = every request' % n,
                    'streams': {'anytrees': n, 'unit_queries': units}}
 
